@@ -293,6 +293,50 @@ pub fn alphas_thorough() -> Vec<Alpha> {
     ]
 }
 
+/// value length that lands in slot class i (0..15) / key length whose record lands in key class i
+fn class_value_len(i: usize) -> u32 {
+    let c = crate::decoder::CLASSES[i];
+    if i < 15 { c - 4 } else { 1000 }
+}
+fn class_key_len(i: usize) -> usize {
+    let c = crate::decoder::CLASSES[i] as usize;
+    if i == 0 { 8 } else if i < 15 { c - 8 } else { 1000 }
+}
+
+/// one small closure per pair of adjacent slot classes, for values and for keys: every free-list head
+/// of both files is used (a slot of class i is freed when the entry grows to class i+1, and reused)
+pub fn class_ladder(ctx: &mut Ctx, prop: &str, oracles: u32, clauses: u32, reopen: bool, step: usize) {
+    let seed = ctx.seed;
+    for i in (0..15).step_by(step) {
+        let a = Alpha { label: "class ladder (values)", colliding: vec![5, 6], other: vec![], vals: vec![class_value_len(i), class_value_len(i + 1)] };
+        let mut cfg = make_cfg(prop, KtId::Bytes, 8, &a, seed);
+        cfg.oracles = oracles;
+        cfg.clauses = clauses;
+        if reopen {
+            cfg.params = reopen_params(cfg.params[0]);
+        }
+        let starts: Vec<Start> = empty_start(ctx, &cfg).into_iter().collect();
+        run_closure(ctx, &format!("class ladder: 2 colliding keys x values of {} and {} bytes (value slots {} and {})", a.vals[0], a.vals[1], crate::decoder::CLASSES[i], crate::decoder::CLASSES[i + 1]), &cfg, starts, 100_000, 20.0);
+        if ctx.run.too_many() || !ctx.run.violations.is_empty() {
+            return;
+        }
+    }
+    for i in (0..15).step_by(step) {
+        let a = Alpha { label: "class ladder (keys)", colliding: vec![class_key_len(i), class_key_len(i + 1)], other: vec![], vals: vec![3, 40] };
+        let mut cfg = make_cfg(prop, KtId::Bytes, 8, &a, seed);
+        cfg.oracles = oracles;
+        cfg.clauses = clauses;
+        if reopen {
+            cfg.params = reopen_params(cfg.params[0]);
+        }
+        let starts: Vec<Start> = empty_start(ctx, &cfg).into_iter().collect();
+        run_closure(ctx, &format!("class ladder: colliding keys of {} and {} bytes (key slots {} and {}) x {{3,40}}", a.colliding[0], a.colliding[1], crate::decoder::CLASSES[i], crate::decoder::CLASSES[i + 1]), &cfg, starts, 100_000, 20.0);
+        if ctx.run.too_many() || !ctx.run.violations.is_empty() {
+            return;
+        }
+    }
+}
+
 fn standard_runs(ctx: &mut Ctx, prop: &str, oracles: u32, clauses: u32, ro_mode: u8, reopen: bool, kts_small: &[KtId], quick_cap: usize) {
     let seed = ctx.seed;
     let thorough = ctx.thorough();
@@ -346,6 +390,10 @@ pub fn c01(tier: &str, seed: u64) -> i32 {
         ];
         crate::props_c08::seeded_group(&mut ctx, "C01", O_API, 0, 2, vec![3, 200], &specs, 60_000, 10.0);
     }
+    if ctx.run.violations.is_empty() {
+        let step = if ctx.thorough() { 1 } else { 4 };
+        class_ladder(&mut ctx, "C01", O_API, 0, false, step);
+    }
     crate::engine_b::c01_live(&mut ctx);
     if ctx.run.violations.is_empty() && (ctx.thorough() || std::env::var("ABYV_DEV_PASS").is_ok()) && ctx.use_dev_workers() {
         // the same closures and sequences under dev semantics (what `cargo test` builds)
@@ -361,6 +409,9 @@ pub fn c01(tier: &str, seed: u64) -> i32 {
 pub fn c02(tier: &str, seed: u64) -> i32 {
     let mut ctx = Ctx::new("C02", tier, seed, "model_checking");
     standard_runs(&mut ctx, "C02", O_API | O_REOPEN | O_ITER | O_ALT_PARAMS, 0, 0, true, &KtId::ALL, 200_000);
+    if ctx.run.violations.is_empty() {
+        class_ladder(&mut ctx, "C02", O_API | O_REOPEN | O_ALT_PARAMS, 0, true, 1);
+    }
     if ctx.run.violations.is_empty() {
         // the same small closure once more with every state expanded by a freshly spawned process
         let alphas = alphas_small();
@@ -382,6 +433,24 @@ pub fn c05(tier: &str, seed: u64) -> i32 {
     let mut ctx = Ctx::new("C05", tier, seed, "model_checking");
     let clauses = clause_mask(&[Clause::Header, Clause::HtxSize, Clause::Chain, Clause::Placement, Clause::DupKey, Clause::ValueRef, Clause::Overflow, Clause::Count, Clause::Bitmap]);
     standard_runs(&mut ctx, "C05", O_DEC | O_DEC_CONTENTS | O_ALT_PARAMS, clauses, 0, true, &KtId::ALL, 200_000);
+    if ctx.run.violations.is_empty() {
+        class_ladder(&mut ctx, "C05", O_DEC | O_DEC_CONTENTS, clauses, false, 1);
+    }
+    if ctx.run.violations.is_empty() {
+        // keys whose length needs a two-byte length field (128..1016 bytes), records on slot edges
+        let mut lens_list = vec![vec![250usize, 251]];
+        if ctx.thorough() {
+            lens_list.push(vec![122, 123, 378]);
+        }
+        for lens in lens_list {
+            let a = Alpha { label: "colliding keys with two-byte length fields", colliding: lens.clone(), other: vec![], vals: vec![5, 1000] };
+            let mut cfg = make_cfg("C05", KtId::Bytes, 8, &a, seed);
+            cfg.oracles = O_DEC | O_DEC_CONTENTS;
+            cfg.clauses = clauses;
+            let starts: Vec<Start> = empty_start(&mut ctx, &cfg).into_iter().collect();
+            run_closure(&mut ctx, &format!("colliding keys of {:?} bytes x {{5,1000}} [bytes]", lens), &cfg, starts, 60_000, 15.0);
+        }
+    }
     crate::props_c08::seeded_runs(&mut ctx, "C05", O_DEC | O_DEC_CONTENTS, clauses, true);
     let rule = format!("{RULE_A}; invariant evaluated on every state by the independent decoder: acyclic chains, keys hash to their bucket, no duplicate key, stored count = reachable keys, bitmap covers non-empty buckets, value references in bounds and unshared, records within their slots, decoded contents = model; non-trivial = states with a chain of >= 2 keys or a non-empty free list");
     ctx.finish_model_checking(&rule, &["states_with_chain_len_ge2", "states_with_nonempty_free_list"])
@@ -531,6 +600,9 @@ pub fn c06(tier: &str, seed: u64) -> i32 {
         c06_first_fit_sweep(&mut ctx);
     }
     if ctx.run.violations.is_empty() {
+        class_ladder(&mut ctx, "C06", o, clauses, false, 1);
+    }
+    if ctx.run.violations.is_empty() {
         let specs = vec![
             crate::props_c08::SeedSpec { file: "val", boundary: 16 * 1024, eps: 16, free_slots: 2 },
             crate::props_c08::SeedSpec { file: "key", boundary: 16 * 1024, eps: 0, free_slots: 2 },
@@ -608,6 +680,15 @@ pub fn c17(tier: &str, seed: u64) -> i32 {
         let starts: Vec<Start> = empty_start(&mut ctx, &cfg).into_iter().collect();
         let (cap, secs) = if ctx.thorough() { (1_000_000, 240.0) } else { (40_000, 20.0) };
         run_closure(&mut ctx, &format!("{} [bytes]", a.label), &cfg, starts, cap, secs);
+    }
+    if ctx.run.violations.is_empty() {
+        // states in which key records have been relocated (16 KiB seeds)
+        let specs = vec![
+            crate::props_c08::SeedSpec { file: "val", boundary: 16 * 1024, eps: 16, free_slots: 0 },
+            crate::props_c08::SeedSpec { file: "key", boundary: 16 * 1024, eps: 16, free_slots: 2 },
+        ];
+        crate::props_c08::seeded_group(&mut ctx, "C17", o, clauses, 2, vec![3, 200], &specs, 60_000, 10.0);
+        class_ladder(&mut ctx, "C17", o, clauses, false, 3);
     }
     // tables below 8 buckets (the bitmap is shorter than a byte per 8 buckets there)
     for n in [1u64, 2, 4] {
